@@ -247,6 +247,7 @@ func (r *run36) run(bi int, beh []map[string]any, res *vh.Result) bool {
 	}
 	// the reference, kept by the harness from its own actions in real unix seconds
 	dl, sdl := inf36, inf36
+	lastRefresh := "none"
 	owed, connected, subLive := false, false, false
 	nontrivial := false
 	closedCode := func() (bool, int) {
@@ -261,6 +262,7 @@ func (r *run36) run(bi int, beh []map[string]any, res *vh.Result) bool {
 		mode := sget(step, "mode")
 		mo, mcb := model36(st)
 		pendingDrift := ""
+		dlBefore := dl
 		before := r.frames()
 		wasClosed, _ := closedCode()
 		nowUnix := time.Now().Unix()
@@ -302,6 +304,7 @@ func (r *run36) run(bi int, beh []map[string]any, res *vh.Result) bool {
 				case "zero":
 					dl = inf36
 				}
+				lastRefresh = "client-" + mode
 			}
 			nontrivial = true
 		case "ServerRefresh":
@@ -315,6 +318,7 @@ func (r *run36) run(bi int, beh []map[string]any, res *vh.Result) bool {
 			case "expired":
 				_ = conn.Client.Refresh(centrifuge.WithRefreshExpired(true))
 			}
+			lastRefresh = "server-" + mode
 			nontrivial = true
 		case "SubRefresh":
 			r.setMode(mode)
@@ -372,6 +376,11 @@ func (r *run36) run(bi int, beh []map[string]any, res *vh.Result) bool {
 			}
 		}
 		// ---- monitors: the action properties of ConnTimers.tla on the real connection
+		explicitExpired := mode == "expired" && (act == "ClientRefresh" || act == "ServerRefresh" || (act == "TimerFire" && sget(step, "op") == "expire"))
+		if closedNow && code == codeExpired && !explicitExpired && !(dlBefore != inf36 && nowUnix >= dlBefore) && !(act == "TimerFire" && sget(step, "op") == "expire") {
+			violate("expire:closed-although-refreshed:"+lastRefresh, fmt.Sprintf("%s closed the connection as expired although its deadline (last refresh: %s) is %s", act, lastRefresh, rel(dlBefore, nowUnix)))
+			break
+		}
 		if act == "TimerFire" {
 			switch sget(step, "op") {
 			case "pong":
@@ -396,7 +405,7 @@ func (r *run36) run(bi int, beh []map[string]any, res *vh.Result) bool {
 						violate("expire:not-closed", fmt.Sprintf("the expire timer fired %d s past the connection's deadline and the connection was not closed as expired (closed=%v code=%d)", nowUnix-dl, nowClosed, code))
 					}
 					if !past && closedNow {
-						violate("expire:closed-although-refreshed", fmt.Sprintf("the expire timer closed the connection with %d although its deadline (refreshed) is %s", code, rel(dl, nowUnix)))
+						violate("expire:closed-although-refreshed:"+lastRefresh, fmt.Sprintf("the expire timer closed the connection with %d although its deadline (last refresh: %s) is %s", code, lastRefresh, rel(dl, nowUnix)))
 					}
 				case "extend", "zero":
 					if closedNow {
@@ -446,7 +455,7 @@ func (r *run36) run(bi int, beh []map[string]any, res *vh.Result) bool {
 			drift(pendingDrift)
 			break
 		}
-		if act == "ClientRefresh" && mode == "zero" && c.CSR && !nowClosed {
+		if act == "ClientRefresh" && mode == "zero" && c.CSR && !c.Ping && dlBefore != inf36 && !nowClosed {
 			// the client was told "no expiration"; a connection that still carries its old expiry deadline will be
 			// closed as expired although it was refreshed: let the armed timer run out and see (witness continuation)
 			if a := r.sch.active("c"); len(a) == 1 && a[0].d < time.Hour {
